@@ -6,6 +6,7 @@ import Iavl.Model.Delta
 import Iavl.Model.Importer
 import Iavl.Model.ChangeSet
 import Iavl.Model.Store
+import Iavl.Model.KV
 /-
   The executable face of the model: a line-protocol interpreter that answers every operation of a
   history with exactly the definitions the theorems are about (`VTree.step`, `hashNode`, `mkProof`,
@@ -103,6 +104,8 @@ structure XState where
   streams : List (String × List (Option RawNode)) := []
   cfgFast : Bool := true
   fastOpen : Bool := true
+  kv : KVState := KVState.empty
+  kvPfx : Bytes := []
 
 def init : XState := { vs := initT none, opened := false, cfgIv := none }
 
@@ -275,6 +278,44 @@ def immOp (working : Nat) (c : OT) (args : List String) : String :=
       else "[" ++ " ".intercalate (ns.map fmtExportNode) ++ "]"
   | _ => "?"
 
+/-! ### ordered key-value contract (C18) -/
+def fmtK : KRes → String
+  | .ok => "ok"
+  | .err => "err"
+  | .val v => enc v
+  | .bool b => b2s b
+  | .list l => fmtPairs l
+
+def kvExec (x : XState) (args : List String) : Option (XState × String) :=
+  let run (op : KOp) : Option (XState × String) :=
+    let (kv', r) := kvStep x.kv op
+    some ({ x with kv := kv' }, fmtK r)
+  match args with
+  | "knew" :: _ :: rest =>
+    let pfx := rest.foldl (fun acc a => if a.startsWith "pfx=" then ((dec (a.drop 4).toString).getD none).getD [] else acc) []
+    some ({ x with kv := KVState.empty, kvPfx := pfx }, "ok")
+  | ["kget", k] => (dec k).bind fun k => run (.get k)
+  | ["khas", k] => (dec k).bind fun k => run (.has k)
+  | ["kset", k, v] => (dec k).bind fun k => (dec v).bind fun v => run (.set k v)
+  | ["kdel", k] => (dec k).bind fun k => run (.del k)
+  | ["kiter", s, e] => (dec s).bind fun s => (dec e).bind fun e => run (.iter s e false)
+  | ["kriter", s, e] => (dec s).bind fun s => (dec e).bind fun e => run (.iter s e true)
+  | ["kbnew", b] => run (.bnew b)
+  | ["kbset", b, k, v] => (dec k).bind fun k => (dec v).bind fun v => run (.bset b k v)
+  | ["kbdel", b, k] => (dec k).bind fun k => run (.bdel b k)
+  | ["kbwrite", b] => run (.bwrite b)
+  | ["kbclose", b] => run (.bclose b)
+  | ["krawset", k, v] =>
+    match dec k, dec v with
+    | some (some k), some (some v) =>
+      let p := x.kvPfx
+      if p.isPrefixOf k && k.length > p.length then
+        some ({ x with kv := { x.kv with m := insertSorted (k.drop p.length) v x.kv.m } }, "ok")
+      else some ({ x with kv := { x.kv with outside := insertSorted k v x.kv.outside } }, "ok")
+    | _, _ => none
+  | ["krawdump"] => some (x, fmtPairs x.kv.outside)
+  | _ => none
+
 def sameRoot (vs : VState OT) : Bool :=
   let ver := vs.workingVersion
   match findVer vs.versions ver with
@@ -292,6 +333,9 @@ partial def exec (x : XState) (args : List String) : XState × String :=
   match args with
   | "new" :: _ => (init, "ok")
   | "fresh" :: _ => ({ init with streams := x.streams }, "ok")
+  | "knew" :: _ | "kget" :: _ | "khas" :: _ | "kset" :: _ | "kdel" :: _ | "kiter" :: _ | "kriter" :: _
+  | "kbnew" :: _ | "kbset" :: _ | "kbdel" :: _ | "kbwrite" :: _ | "kbclose" :: _ | "krawset" :: _ | "krawdump" :: _ =>
+    (kvExec x args).getD (x, "bad")
   | "cfg" :: rest =>
     let iv := rest.foldl (fun acc a => if a.startsWith "iv=" then parseIv (a.drop 3).toString else acc) x.cfgIv
     let fast := rest.foldl (fun acc a => if a.startsWith "fast=" then a == "fast=1" else acc) x.cfgFast
